@@ -177,6 +177,33 @@ def finish(ex, p):
     ex.raw_fail = []
 
 
+def definition_part(ctx):
+    """the emitted *definition* of a callee must be a function the caller can call: a body that reads registers, the
+    program counter, immediates or the slot gets the packet / instruction variables it uses (template callees through the
+    public API, judged by the C-body checker that C11 uses)"""
+    from .. import staticrun
+    from .static_common import SUB_TEMPLATES
+    c = boot.new_compiler("stmt")
+    resolver = diff.make_resolver(c)
+    subinfo = staticrun.SubInfo()
+    for tag, ret, params, body in SUB_TEMPLATES:
+        name = f"c08d_{tag}_{os.getpid()}"
+        ctx.evaluations += 1
+        try:
+            with boot.quiet():
+                c.add_sub_routine(name, ret, params, body)
+        except Exception:
+            ctx.count("callee template rejected")
+            continue
+        subinfo.add(name, ret, params, body)
+        ctx.nontriv(("callee-definition", tag))
+        kinds = {}
+        for kind, msg in staticrun.subroutine_issues("C11", c, name, subinfo, resolver):
+            kinds.setdefault(kind, msg)
+        for kind, msg in kinds.items():
+            ctx.failure(f"C08 callee definition is not a valid function: {kind} [{tag}]", {"callee": tag, "body": body, "issue": msg})
+
+
 def run_check(ctx):
     ctx.rule = ("Hypothesis: 1-2 generated sub-routines registered through add_sub_routine + a caller with 1..4 calls per statement "
                 "x generated states, on a long-lived and (every 8th example) a fresh compiler; the 13 bundled routines are covered "
@@ -187,6 +214,7 @@ def run_check(ctx):
     enable = progcheck.replay_known(ctx, replay_fn=replay)
     n, ns = (6000, 8) if ctx.tier == "thorough" else (320, 5)
     run.run_sharded(ctx, worker, [(n // 16, ns, run.sub_seed(ctx.seed, "c08", i), 8, frozenset(enable)) for i in range(16)])
+    definition_part(ctx)
     for k in ("history:fresh compiler", "history:long-lived compiler"):
         if not ctx.classes.get(k):
             raise run.HarnessError("no example for " + k)
